@@ -94,6 +94,16 @@ func Keys[K comparable, V any](site string, m map[K]V) []K {
 	return out
 }
 
+// SyncHook, when set, is called before every library statement that performs an atomic operation (a coarse
+// scheduling point, like a pool operation).
+var SyncHook func(site int)
+
+func SyncPoint(site int) {
+	if SyncHook != nil {
+		SyncHook(site)
+	}
+}
+
 // YieldHook, when set, is called before every library statement (fine points).
 var YieldHook func(site int)
 
